@@ -1,6 +1,8 @@
 import St4sd.Model.Ini
 import St4sd.Model.IniNames
 import St4sd.Model.IniFloat
+import St4sd.Model.IniProc
+import St4sd.Model.IniDir
 /-!
 Witnesses for C19 (hand-written copies of the table rows as they are in the unrepaired code, so that
 this file checks whatever the state of /repo):
@@ -103,5 +105,63 @@ theorem fixed_precision_breaks_the_sum :
     ([w0125, w0125, w075].map fun w => thousandths (fixed2 w)).sum = 990 := by decide
 
 end Numbers
+
+/-! ### why `known_flowir_options()` must hand out a fresh list
+
+`validate_component` extends the answer of `known_flowir_options()` with the options of the component's backend.  If
+the answer were one cached list object (`IniProc.parseSeq true`), every option name of a backend read earlier in the
+process would count as a known key from then on: a component variable of that name (the simulator backend is
+parametrised through such variables) is consumed by the if/elif chain, which has no branch for it, and is lost — in
+the simulator component itself and in every component read later, of any workflow. -/
+section Process
+open St4sd.IniProc
+
+def simKey : List Char := "sim_expected_exit_code".toList
+def procParse : List ParseEntry :=
+  [⟨jobType, [(["resourceManager".toList, "config".toList, "backend".toList], .parsed .raw)]⟩]
+def procKnown : List (List Char) := [jobType]
+def procBackends : BackendTable := [("simulator".toList, [simKey])]
+def simSection : Section := [(jobType, "simulator".toList), (simKey, "0".toList)]
+def laterSection : Section := [(jobType, "local".toList), (simKey, "3".toList)]
+
+/-- the code that exists: both components keep the variable, in either order -/
+theorem fresh_list_keeps_variables :
+    (parseSeq false procParse procBackends ⟨procKnown⟩ [simSection, laterSection]).2
+      = [some [(["resourceManager".toList, "config".toList, "backend".toList], .str "simulator".toList),
+               ([variablesSeg, simKey], .str "0".toList)],
+         some [(["resourceManager".toList, "config".toList, "backend".toList], .str "local".toList),
+               ([variablesSeg, simKey], .str "3".toList)]] := by decide
+
+/-- a cached list: the variable is gone from both components … -/
+theorem cached_list_drops_variables :
+    (parseSeq true procParse procBackends ⟨procKnown⟩ [simSection, laterSection]).2
+      = [some [(["resourceManager".toList, "config".toList, "backend".toList], .str "simulator".toList)],
+         some [(["resourceManager".toList, "config".toList, "backend".toList], .str "local".toList)]] := by decide
+
+/-- … and the answer for `laterSection` depends on what was read before -/
+theorem cached_list_answer_depends_on_history :
+    (parseSeq true procParse procBackends ⟨procKnown⟩ [laterSection]).2
+      = [some [(["resourceManager".toList, "config".toList, "backend".toList], .str "local".toList),
+               ([variablesSeg, simKey], .str "3".toList)]] := by decide
+
+end Process
+
+/-! ### why the clean-up of `dump(update_existing=True)` must remove every stage file of the flavour
+
+A clean-up that removes only the files about to be regenerated (`IniDir.dumpKeep`) leaves the file of a stage that the
+new description no longer has; `_discover_stages` picks it up and the loaded description has a phantom stage. -/
+section Directory
+open St4sd.IniDir
+
+def three : Files Nat := descOf [10, 11, 12]
+def two : Files Nat := descOf [20, 21]
+
+theorem cleanup_of_all_stage_files_no_phantom :
+    discover ((dump (dump (⟨[], []⟩ : Dir Nat) true three) true two).files true) = some [20, 21] := by decide
+
+theorem partial_cleanup_leaves_phantom_stage :
+    discover ((dumpKeep (dumpKeep (⟨[], []⟩ : Dir Nat) true three) true two).files true) = some [20, 21, 12] := by decide
+
+end Directory
 
 end St4sd.C19.Witness
